@@ -56,6 +56,9 @@ pub struct TraceCfg {
     pub max_rounds: u32,
     pub max_samples: usize,
     pub max_flows: usize,
+    /// selects one of several target addresses (two-tracer scenarios)
+    #[serde(default)]
+    pub target_idx: u8,
 }
 
 impl Default for TraceCfg {
@@ -83,6 +86,7 @@ impl Default for TraceCfg {
             max_rounds: 3,
             max_samples: 256,
             max_flows: 64,
+            target_idx: 0,
         }
     }
 }
@@ -105,9 +109,9 @@ impl TraceCfg {
     }
     pub fn target_addr(&self) -> IpAddr {
         if self.v6 {
-            IpAddr::V6(Ipv6Addr::new(0xfd00, 0, 0, 9, 0, 0, 0, 9))
+            IpAddr::V6(Ipv6Addr::new(0xfd00, 0, 0, 9, 0, 0, 0, 9 + u16::from(self.target_idx)))
         } else {
-            IpAddr::V4(Ipv4Addr::new(10, 200, 0, 9))
+            IpAddr::V4(Ipv4Addr::new(10, 200, self.target_idx, 9))
         }
     }
     pub fn protocol(&self) -> Protocol {
@@ -363,6 +367,18 @@ pub struct WorldSpec {
     pub send_cost_ns: u64,
     pub recv_cost_ns: u64,
     pub seed: u64,
+    /// raw packets (another tracer's traffic seen on the shared ICMP socket) delivered at fixed
+    /// offsets from the start of the run
+    #[serde(default)]
+    pub raw: Vec<RawInj>,
+}
+
+#[derive(Clone, Debug, PartialEq, Eq, Serialize, Deserialize)]
+pub struct RawInj {
+    pub at_ns: u64,
+    pub bytes: Vec<u8>,
+    pub from: IpAddr,
+    pub label: String,
 }
 
 impl WorldSpec {
@@ -394,6 +410,7 @@ impl WorldSpec {
             send_cost_ns: 0,
             recv_cost_ns: 0,
             seed: 1,
+            raw: vec![],
         }
     }
 }
